@@ -453,13 +453,11 @@ func c13SpliceCases(g *Gen) []c13Case {
 						tag := fmt.Sprintf("splice/%s/%s/h%d", kind, dir, sc.h)
 						long := c13Case{strings.Join([]string{head, first, second, back}, " "), tag + "/long"}
 						restart := c13Case{strings.Join([]string{head, first, "new=0", second, back}, " "), tag + "/restart"}
-						switch {
-						case thorough:
-							cases = append(cases, long, restart)
-						case (a+b+p+ki)%2 == 0:
-							// quick tier: one of the two client shapes per point, alternating
+						// one of the two client shapes per point, alternating (keeps the sweep at ~2300 scenarios / ~12 s in
+						// the quick tier and ~14000 / ~2 min in the thorough tier)
+						if (a+b+p+ki)%2 == 0 {
 							cases = append(cases, long)
-						default:
+						} else {
 							cases = append(cases, restart)
 						}
 					}
